@@ -176,7 +176,7 @@ def r4_random_names_not_captured(ctx) -> None:
     from ..util import const_eval
     r, prog = ctx.r, ctx.prog
     cm = prog.module("sigma.conditions")
-    pat_alpha = const_eval(prog, cm, c02._resolve_alias(cm, c02._module_assign(cm, "identifier_pattern")).args[0])
+    pat_alpha = c02.grammar_alphabets(ctx, cm)[1]
     before = len(r.obligations)
     c02.r4_selector(ctx, cm, pat_alpha)
     for o in r.obligations[before:]:
